@@ -437,7 +437,26 @@ static void exercise(const mjModel* m, std::string* stage) {
   *stage = "done";
 }
 
-static void point(long p, VgxOut& out, void* user) {
+// Streaming reporter: the child writes   B <p> / V <p> <key>|<what> / R <p> <changed> <class> / E <p>   per point,
+// unbuffered, so that after a crash the parent knows exactly which point was in flight (one fork per crash).
+struct Out {
+  int fd = 1;
+  void raw(const std::string& sline) { size_t o = 0; while (o < sline.size()) { ssize_t w = write(fd, sline.data() + o, sline.size() - o); if (w <= 0) { if (errno == EINTR) continue; _exit(96); } o += (size_t)w; } }
+  void violation(long point, const char* key, const char* fmt, ...) {
+    char buf[1500];
+    va_list ap;
+    va_start(ap, fmt);
+    vsnprintf(buf, sizeof(buf), fmt, ap);
+    va_end(ap);
+    for (char* c = buf; *c; c++) if (*c == '\n' || *c == '\r') *c = ' ';
+    raw("V " + std::to_string(point) + " " + key + "|" + buf + "\n");
+  }
+  void outcome(long point, const std::string& cls, bool nontriv) {
+    raw("R " + std::to_string(point) + " " + (nontriv ? "1 " : "0 ") + cls + "\n");
+  }
+};
+
+static void point(long p, Out& out, void* user) {
   S* s = (S*)user;
   const Pt& pt = s->plan[p];
   size_t size = s->file.size();
@@ -549,6 +568,78 @@ static void point(long p, VgxOut& out, void* user) {
   // restore the image
   if (pt.kind == 'T') memcpy(s->block, s->file.data(), size);
   for (size_t k = undo.size(); k-- > 0;) s->block[undo[k].first] = undo[k].second;
+}
+
+
+// run points lo..hi-1; one child handles points until it finishes or dies; a death costs exactly one extra fork
+static int run_points(long lo, long hi, long batch, S* s) {
+  char errpath[] = "/tmp/c31_err_XXXXXX";
+  int errfd = mkstemp(errpath);
+  long i = lo;
+  while (i < hi) {
+    long end = i + batch < hi ? i + batch : hi;
+    int pfd[2];
+    if (pipe(pfd)) { perror("pipe"); return 2; }
+    fflush(stdout);
+    if (ftruncate(errfd, 0)) {}
+    lseek(errfd, 0, SEEK_SET);
+    pid_t pid = fork();
+    if (pid < 0) { perror("fork"); return 2; }
+    if (pid == 0) {
+      close(pfd[0]);
+      dup2(errfd, 2);
+      Out out;
+      out.fd = pfd[1];
+      for (long k = i; k < end; k++) {
+        out.raw("B " + std::to_string(k) + "\n");
+        point(k, out, s);
+        out.raw("E " + std::to_string(k) + "\n");
+      }
+      _exit(0);
+    }
+    close(pfd[1]);
+    std::string buf;
+    char tmp[65536];
+    ssize_t r;
+    while ((r = read(pfd[0], tmp, sizeof(tmp))) > 0 || (r < 0 && errno == EINTR)) {
+      if (r > 0) buf.append(tmp, (size_t)r);
+    }
+    close(pfd[0]);
+    int status = 0;
+    while (waitpid(pid, &status, 0) < 0 && errno == EINTR) {}
+    // pass through the lines of completed points; find the point in flight
+    long inflight = -1, done = i;
+    size_t pos = 0, keep = 0;
+    while (pos < buf.size()) {
+      size_t nl = buf.find('\n', pos);
+      if (nl == std::string::npos) break;
+      if (buf[pos] == 'B') { inflight = atol(buf.c_str() + pos + 2); }
+      else if (buf[pos] == 'E') { done = atol(buf.c_str() + pos + 2) + 1; inflight = -1; keep = nl + 1; }
+      pos = nl + 1;
+    }
+    fwrite(buf.data(), 1, keep, stdout);
+    bool ok = WIFEXITED(status) && WEXITSTATUS(status) == 0;
+    if (ok && done == end) { i = end; continue; }
+    char st[64];
+    if (WIFSIGNALED(status)) snprintf(st, sizeof(st), "signal%d", WTERMSIG(status));
+    else snprintf(st, sizeof(st), "exit%d", WEXITSTATUS(status));
+    long cp = inflight >= 0 ? inflight : done;
+    // violations already written by the dying point are kept (they precede the crash)
+    size_t q = keep;
+    while (q < buf.size()) {
+      size_t nl = buf.find('\n', q);
+      if (nl == std::string::npos) break;
+      if (buf[q] == 'V') fwrite(buf.data() + q, 1, nl + 1 - q, stdout);
+      q = nl + 1;
+    }
+    std::string sum = vgx_summary(errpath);
+    printf("CRASH %ld %s %s\n", cp, st, sum.c_str());
+    i = cp + 1;
+  }
+  fflush(stdout);
+  close(errfd);
+  unlink(errpath);
+  return 0;
 }
 
 // ------------------------------------------------------------------ parsing
@@ -665,5 +756,5 @@ int main(int argc, char** argv) {
   }
   signal(SIGVTALRM, on_timer);
   printf("I npoints %zu size %zu rows %zu\n", s.plan.size(), s.file.size(), s.table.size());
-  return vgx_run(lo, hi, 1, batch, point, &s);
+  return run_points(lo, hi, batch, &s);
 }
